@@ -182,7 +182,7 @@ func (i *interpreter) startThread(th *thread, fn value, args []value) {
 				i.finish(OutUnsupported, r.what)
 			case targetPanic, runtimeError:
 				msg := panicString(r)
-				i.violation("panic", "uncaught panic: "+msg, "goroutine "+th.name, nil)
+				i.violation("panic", "uncaught panic: "+msg, "goroutine "+th.name+" at "+i.panicAt, nil)
 				i.finish(OutCrash, msg)
 			default:
 				i.finish(OutInternal, fmt.Sprintf("host panic: %v", r))
